@@ -23,12 +23,20 @@ from mutants import MUTANTS  # noqa
 
 
 def apply_edits(srcdir, edits):
+    """anchors are whitespace-insensitive: every run of blanks/tabs/newlines in `old' matches any such run"""
+    import re
     for (fn, old, new) in edits:
         p = os.path.join(srcdir, fn)
         s = open(p).read()
-        if s.count(old) != 1:
-            return "anchor for %s occurs %d times in %s" % (repr(old[:50]), s.count(old), fn)
-        open(p, "w").write(s.replace(old, new))
+        parts = [re.escape(x) for x in re.split(r"\s+", old.strip())]
+        rx = re.compile(r"\s+".join(parts))
+        found = rx.findall(s)
+        if len(found) != 1:
+            return "anchor for %s occurs %d times in %s" % (repr(old[:50]), len(found), fn)
+        lead = old[: len(old) - len(old.lstrip())]
+        trail = old[len(old.rstrip()):]
+        s = rx.sub(lambda m_: new[len(lead):len(new) - len(trail)] if (new.startswith(lead) and (not trail or new.endswith(trail))) else new, s, count=1)
+        open(p, "w").write(s)
     return None
 
 
